@@ -184,20 +184,22 @@ Definition groups : list (string * nat * cls) := [
      Unreachable "guarded by MIN_LEN = 142 and by the buffer.len() < MIN_LEN + url_length check; the unwraps follow is_err() checks");
   ("msg::block_request::BlockchainRequest_as_Serialize::deserialize#", 6,
      Unreachable "guarded by the buffer.len() != 72 check");
+  ("msg::ghost_chain_sync::GhostChainSync::deserialize_checked#", 2,
+     Unreachable "slice [32..36] after the buffer.len() < 36 check");
   ("msg::ghost_chain_sync::GhostChainSync::deserialize#", 21,
-     Known "C10:ghost-chain-sync-short");
+     Unreachable "since fix 8fc45ed the only non-test caller is deserialize_checked, which verifies buffer.len() >= 36 + 82 * count first; every range below is within that length");
   ("msg::api_message::ApiMessage::deserialize#", 3,
-     Known "C10:api-message-short");
+     Unreachable "guarded by the buffer.len() < 4 check (fix 144e342)");
   ("process::version::Version_as_Ord::cmp#", 1,
      Unreachable "partial_cmp of Version is total (it compares three integers)");
   ("process::version::read_pkg_version#", 6,
      LocalOnly "parses the compile-time CARGO_PKG_VERSION string");
   ("consensus::golden_ticket::GoldenTicket::deserialize_from_net#", 7,
-     Known "C10:golden-ticket-len-not-97");
+     Unreachable "internal invariant since fix eeb4ec7: Transaction::deserialize_from_net refuses a GoldenTicket-typed transaction whose payload is not 97 bytes, so pool intake, pool clean-up and block processing (the callers in the peer path) only see 97-byte payloads; locally mined tickets are built by GoldenTicket::serialize_for_net");
   ("consensus::block::Block::deserialize_from_net#", 64,
      Unreachable "fixed header offsets after the bytes.len() < BLOCK_HEADER_SIZE check; every transaction range is checked against bytes.len() before it is sliced");
   ("consensus::transaction::Transaction::deserialize_from_net#", 12,
-     Known "C10:tx-buffer-shorter-than-declared");
+     Unreachable "header offsets after the bytes.len() < TRANSACTION_SIZE check; since fix 34b1724 the total length the header declares is checked against bytes.len() before the slip / message / hop ranges are sliced");
   ("consensus::slip::Slip::deserialize_from_net#", 6,
      Unreachable "guarded by the bytes.len() != SLIP_SIZE check (C10_slip_total)");
   ("consensus::slip::Slip::parse_slip_from_utxokey#", 10,
